@@ -135,7 +135,7 @@ fn c11_rp64_merge_is_hash_of_concatenation() {
     kani::cover!(true);
 }
 
-// @ob id=C11 tier=quick req=1 to=900 funcs="Rp64_256::merge_with_int" bounds="one seed digest, two 64-bit integers (below / at / above the modulus)" sym="seed elements, both integers (full 64 bits)" desc="merge_with_int is injective in the integer: different integers present different sponge states"
+// @ob id=C11 also=C19 tier=quick req=1 to=900 funcs="Rp64_256::merge_with_int" bounds="one seed digest, two 64-bit integers (below / at / above the modulus)" sym="seed elements, both integers (full 64 bits)" desc="merge_with_int is injective in the integer: different integers present different sponge states"
 #[kani::proof]
 #[kani::unwind(14)]
 #[kani::stub(alloc::fmt::format, nofmt)]
@@ -162,7 +162,7 @@ fn c11_rp64_merge_with_int_injective() {
     kani::cover!(x >= M64 && y < M64);
 }
 
-// @ob id=C11 tier=quick req=1 to=900 funcs="RpJive64_256::merge_with_int" bounds="one seed digest, two 64-bit integers" sym="seed elements, both integers (full 64 bits)" desc="merge_with_int is injective in the integer"
+// @ob id=C11 also=C19 tier=quick req=1 to=900 funcs="RpJive64_256::merge_with_int" bounds="one seed digest, two 64-bit integers" sym="seed elements, both integers (full 64 bits)" desc="merge_with_int is injective in the integer"
 #[kani::proof]
 #[kani::unwind(14)]
 #[kani::stub(alloc::fmt::format, nofmt)]
